@@ -52,6 +52,7 @@ def storysend_variants(s, ro_txt, state, rng, pool):
 
 
 def run(s):
+    K.suite_workload(s)
     n_states = 40 if s.tier == 'quick' else 1500
     per = 4 if s.tier == 'quick' else 6
     for i in range(n_states):
